@@ -13,6 +13,16 @@ from ..sym import is_token, loop_body_outcomes, token_class
 DEC = 'dsutils.decode(msg.data_set, ctx.supported_ts.is_implicit_VR, ctx.supported_ts.is_little_endian)'
 
 
+def _same_expr(a: str, b: str) -> bool:
+    """are the two terms the same expression (parentheses that only group do not matter)?"""
+    if a == b:
+        return True
+    try:
+        return ast.unparse(ast.parse(a, mode='eval')) == ast.unparse(ast.parse(b, mode='eval'))
+    except SyntaxError:
+        return False
+
+
 def run(repo, rep):
     rep.trust('C18 for the pending classification; CPython generator semantics')
     rep.rule('C19.U1', 'C-GET user: a received C-STORE request is answered exactly once on the context it arrived on and yields '
@@ -127,6 +137,13 @@ def run(repo, rep):
         m_loc = _re.match(r"^AUG_(\w+)\(PRE_(\w+), 'Add', 1\)$", comp)
         m_fld = _re.match(r"^AUG_(\w+)\(PRE_(NEW_\w+_L\d+)\.(\w+), 'Add', 1\)$", comp)
         loc = None
+        # ... or "<a per-iteration counter as it was when the iteration began> + 1" (``for k, x in enumerate(..): report(k + 1)``)
+        m_pre = _re.match(r"^(?:PRE_(\w+) \+ 1|1 \+ PRE_(\w+))$", comp)
+        if m_pre:
+            cname_ = m_pre.group(1) or m_pre.group(2)
+            if s.get(cname_) == "AUG_%s(PRE_%s, 'Add', 1)" % (cname_, cname_):
+                loc = ('local', cname_)
+                comp_ok_as = comp
         if m_loc and m_loc.group(1) == m_loc.group(2):
             loc = ('local', m_loc.group(1))
         elif m_fld and m_fld.group(1) == m_fld.group(3):
@@ -137,7 +154,7 @@ def run(repo, rep):
                       'completed reported as %s' % comp)
         else:
             counter_locs.add(loc)
-        if rem != '%s[1] - %s' % (H, comp):
+        if not _same_expr(rem or '', '%s[1] - (%s)' % (H, comp)):
             p3.append('remaining reported as %s, expected total - completed(after increment)' % rem)
         const = status_constant(repo, fl.get('status', ''))
         if const is None or classify(repo, const[0], 'CMoveRSPMessage') != 'Pending':
@@ -182,10 +199,17 @@ def run(repo, rep):
         if not nothing and not failed_early:
             comp = fl.get('num_of_completed_sub_ops', '')
             rem = fl.get('num_of_remaining_sub_ops', '')
-            if rem != '%s[1] - %s' % (H, comp):
+            if not _same_expr(rem or '', '%s[1] - (%s)' % (H, comp or '0')):
                 p3.append('final response: remaining = %s with completed = %s' % (rem, comp))
             names = {l_[1] if l_[0] == 'local' else l_[2] for l_ in counter_locs} or {'completed'}
-            if comp != '0' and not any(('AUG_%s(' % n_) in comp or ('PHI_%s_' % n_) in comp or comp == n_ for n_ in names):
+            folded = None
+            try:
+                from ..arith import eval_term
+                folded = eval_term(ast.parse(comp, mode='eval').body, {})
+            except Exception:
+                folded = None
+            if comp != '0' and not isinstance(folded, int) and \
+                    not any(('AUG_%s(' % n_) in comp or ('PHI_%s_' % n_) in comp or comp == n_ for n_ in names):
                 p3.append('final response: completed = %s is not the counter' % comp)
         if nothing and any(e.kind in ('request_association', 'subop') for e in s.trail):
             p4.append('with nothing to move a sub-association is still requested')
